@@ -144,12 +144,15 @@ def _num_paths(node, path=()):
             yield from _num_paths(node[k], path + (k,))
 
 
-def ddmin(case, still_fails, budget):
-    """Greedy structural minimisation of a JSON case; `still_fails(c)` is the oracle."""
+def ddmin(case, still_fails, budget, seconds=30):
+    """Greedy structural minimisation of a JSON case; `still_fails(c)` is the oracle.
+    Bounded by evaluations and by wall-clock (running out only stops the shrinking)."""
     used = [0]
+    t_end = _time.time() + seconds
 
     def test(c):
-        if used[0] >= budget:
+        if used[0] >= budget or _time.time() > t_end:
+            used[0] = budget
             return False
         used[0] += 1
         try:
@@ -420,7 +423,7 @@ def main(modname, tier, replay=None):
             o = check.run_case(c, tier)
             return any(x.key() == key for x in o.failures)
         try:
-            small, used = ddmin(case, still, check.shrink_budget[tier])
+            small, used = ddmin(case, still, check.shrink_budget[tier], 20 if tier == 'quick' else 120)
             o = check.run_case(small, tier)
             fd2 = next((x.as_dict() for x in o.failures if x.key() == f.key()), fd)
         except Exception:
